@@ -79,6 +79,7 @@ theorem cut_inv (s : State) (h : Core s) (hn : s.inflight = none) (hr : s.phase 
 @[simp] theorem cut_appended (s : State) : (cut s).appended = s.appended := by unfold cut; split <;> rfl
 @[simp] theorem cut_acked (s : State) : (cut s).acked = s.acked := by unfold cut; split <;> rfl
 @[simp] theorem cut_phase (s : State) : (cut s).phase = s.phase := by unfold cut; split <;> rfl
+@[simp] theorem cut_closeReturned (s : State) : (cut s).closeReturned = s.closeReturned := by unfold cut; split <;> rfl
 
 theorem step_max (s : State) (op : Op) : (step s op).max = s.max := by
   cases op <;> simp only [step] <;> (repeat' split) <;> simp
@@ -164,6 +165,43 @@ theorem step_fail_spec (s : State) (b : List Nat) (hb : s.inflight = some b) (hp
   obtain ⟨max, appended, pending, inflight, batches, calls, persisted, failed, acked, phase, blocked, ar, cc, cr⟩ := s
   simp only at hb hp; subst hb
   rcases hp with rfl | rfl <;> simp [step, Quiet]
+
+/-! ### a graceful stop waits for the call in flight: `Close` has returned only when the loop has ended and the worker is idle -/
+
+/-- inductive on its own: `Close` returns either at once (nothing in flight) or in the step in which the call it waited for returns -/
+def CloseInv (s : State) : Prop := s.closeReturned = true → s.phase = .stopped ∧ s.inflight = none
+
+theorem init_closeInv (max : Nat) : CloseInv (init max) := by simp [CloseInv, init]
+
+theorem step_closeInv (s : State) (op : Op) (h : CloseInv s) : CloseInv (step s op) := by
+  obtain ⟨max, appended, pending, inflight, batches, calls, persisted, failed, acked, phase, blocked, ar, cc, cr⟩ := s
+  simp only [CloseInv] at h
+  cases op <;> cases phase <;> cases inflight <;> cases cc <;> cases cr <;> simp_all [step, CloseInv]
+
+theorem runFrom_closeInv (s : State) (ops : List Op) (h : CloseInv s) : CloseInv (runFrom s ops) := by
+  induction ops generalizing s with
+  | nil => exact h
+  | cons op ops ih => exact ih (step s op) (step_closeInv s op h)
+
+theorem run_closeInv (max : Nat) (ops : List Op) : CloseInv (run max ops) := runFrom_closeInv _ ops (init_closeInv max)
+
+/-- once the loop has ended with the worker idle, nothing reaches the runner function any more and no call returns -/
+theorem step_ended (s : State) (op : Op) (hp : s.phase = .stopped) (hi : s.inflight = none) :
+    (step s op).phase = .stopped ∧ (step s op).inflight = none ∧ (step s op).calls = s.calls ∧
+    (step s op).batches = s.batches ∧ (step s op).persisted = s.persisted ∧ (step s op).acked = s.acked := by
+  obtain ⟨max, appended, pending, inflight, batches, calls, persisted, failed, acked, phase, blocked, ar, cc, cr⟩ := s
+  simp only at hp hi; subst hp; subst hi
+  cases op <;> cases cc <;> simp [step]
+
+theorem runFrom_ended (s : State) (ops : List Op) (hp : s.phase = .stopped) (hi : s.inflight = none) :
+    (runFrom s ops).calls = s.calls ∧ (runFrom s ops).batches = s.batches ∧ (runFrom s ops).persisted = s.persisted ∧
+    (runFrom s ops).acked = s.acked := by
+  induction ops generalizing s with
+  | nil => exact ⟨rfl, rfl, rfl, rfl⟩
+  | cons op ops ih =>
+    obtain ⟨p, i, c, b, pe, a⟩ := step_ended s op hp hi
+    obtain ⟨c', b', pe', a'⟩ := ih (step s op) p i
+    exact ⟨c'.trans c, b'.trans b, pe'.trans pe, a'.trans a⟩
 
 /-! ### progress: while the loop runs, `release` after `release` drains the queue completely -/
 
